@@ -17,8 +17,9 @@ for d in sorted(glob.glob(os.path.join(ROOT, 'seeded', 'C*'))):
             res.append('%s: VIOLATION%s — %s' % (c, ' (no concrete input)' if nf else '', what[:110].replace('|', '/')))
         else: res.append('%s: not caught' % c)
     note = m.get('lead_note', '')
-    print('| %s | %s | %s | %s %s |' % (os.path.basename(d), (m.get('what_changed') or '')[:260].replace('|', '/').replace('\n', ' '),
-          (m.get('needs_to_manifest') or '')[:200].replace('|', '/').replace('\n', ' '), '; '.join(res), note))
+    if note: note = '— ' + note[:420]
+    print('| %s | %s | %s | %s %s |' % (os.path.basename(d), (m.get('what_changed') or '')[:200].replace('|', '/').replace('\n', ' '),
+          (m.get('needs_to_manifest') or '')[:140].replace('|', '/').replace('\n', ' '), '; '.join(res), note))
 print()
 print('| property | status | finding |')
 print('|---|---|---|')
